@@ -9,8 +9,11 @@
 EXTENDS ChessText, Json, IOUtils, TLCExt
 
 Rec == ndJsonDeserialize(IOEnv.TRACE)
-VARIABLES l, due, clean, sess, wantUci, ids, resync, armed
-tvars == <<pos, l, due, clean, sess, wantUci, ids, resync, armed>>
+VARIABLES l, due, clean, sess, wantUci, ids, resync, armed, fromBook
+tvars == <<pos, l, due, clean, sess, wantUci, ids, resync, armed, fromBook>>
+\* the opening book the specification built from the game files (Book.tla): key text -> LAN texts; optional
+BookRel == IF "BOOK" \in DOMAIN IOEnv THEN JsonDeserialize(IOEnv.BOOK) ELSE [none |-> <<>>]
+BookKey(p) == Placement(p.board) \o " " \o p.stm \o " " \o CastleStr(p.castle) \o " " \o (IF p.ep # 0 /\ EpLegal(p) THEN SqName(p.ep) ELSE "-")
 ToSetOf(seq) == { seq[i] : i \in 1..Len(seq) }
 Norm(p) == [board |-> p.board, stm |-> p.stm, castle |-> ToSetOf(p.castle), ep |-> p.ep, half |-> p.half, full |-> p.full]
 Diag(prop, ok, what) == IF ok THEN TRUE ELSE PrintT(<<"DIAG", ToJson([prop |-> prop, l |-> l, what |-> what])>>)
@@ -27,12 +30,13 @@ Play(p, mvs, i) == IF i > Len(mvs) THEN [ok |-> TRUE, p |-> p]
 TSession ==
   /\ IsEvent("Session")
   /\ pos' = StartPos /\ due' = <<>> /\ clean' = TRUE /\ sess' = [wellformed |-> Rec[l].wellformed, id |-> Rec[l].id, pacing |-> Rec[l].pacing]
-  /\ wantUci' = FALSE /\ ids' = 0 /\ resync' = FALSE /\ armed' = FALSE
+  /\ wantUci' = FALSE /\ ids' = 0 /\ resync' = FALSE /\ armed' = FALSE /\ fromBook' = FALSE
 
 \* a go with a long time limit on an open position that is not answered from the book arms the
 \* "isready even while a search runs" clause: the next readyok has to come before that search's bestmove
 TIn ==
   /\ IsEvent("In")
+  /\ UNCHANGED fromBook
   /\ armed' = (IF Rec[l].kind = "go" /\ "long" \in DOMAIN Rec[l] THEN (LegalPosition(pos) /\ Legal(pos) # {}) ELSE IF Rec[l].kind \in {"stop", "quit", "eof", "position", "ucinewgame"} THEN FALSE ELSE armed)
   /\ LET e == Rec[l] IN
      CASE e.kind = "position" ->
@@ -56,7 +60,7 @@ TState ==
        IF resync THEN /\ pos' = (IF e.seen THEN Norm(e.pos) ELSE pos) /\ resync' = FALSE
        ELSE /\ Diag(P, e.seen /\ Concat(e.fen) = ToFen(pos), [kind |-> "engine's current position differs from the one the rules define", expected |-> ToFen(pos), got |-> Concat(e.fen), session |-> sess.id])
             /\ UNCHANGED <<pos, resync>>
-  /\ UNCHANGED <<due, clean, sess, wantUci, ids, armed>>
+  /\ UNCHANGED <<due, clean, sess, wantUci, ids, armed, fromBook>>
 
 TOut ==
   /\ IsEvent("Out")
@@ -64,6 +68,14 @@ TOut ==
       THEN Diag(P, FALSE, [kind |-> "isready was not answered while the search was running (readyok only after the bestmove)", session |-> sess.id])
       ELSE TRUE)
   /\ armed' = (IF Rec[l].kind \in {"readyok", "bestmove", "book"} THEN FALSE ELSE armed)
+  /\ fromBook' = (IF Rec[l].kind = "book" THEN TRUE ELSE IF Rec[l].kind = "bestmove" THEN FALSE ELSE fromBook)
+  /\ (IF Rec[l].kind = "bestmove" /\ due # <<>> /\ "BOOK" \in DOMAIN IOEnv
+      THEN LET k == BookKey(due[1].p) IN
+           \* (whether the front end consults the book at all is its own choice; only what the book answered is judged)
+           IF fromBook THEN Diag("C16", k \in DOMAIN BookRel /\ Concat(Rec[l].mv) \in ToSetOf(BookRel[k]),
+                                     [kind |-> "move answered from the opening book was not played from this position in the game files", pos |-> ToFen(due[1].p), mv |-> Concat(Rec[l].mv), session |-> sess.id])
+           ELSE TRUE
+      ELSE TRUE)
   /\ LET e == Rec[l] IN
      CASE e.kind = "bestmove" ->
             IF due = <<>> THEN /\ Diag(P, FALSE, [kind |-> "bestmove that no go was waiting for", mv |-> Concat(e.mv), session |-> sess.id]) /\ UNCHANGED <<due, wantUci, ids>>
@@ -81,28 +93,28 @@ TOut ==
 TWaitEnd ==
   /\ IsEvent("WaitEnd")
   /\ Diag(P, due = <<>>, [kind |-> "no bestmove although the search's limit was reached", pos |-> (IF due # <<>> THEN ToFen(due[1].p) ELSE ""), session |-> sess.id])
-  /\ due' = <<>> /\ UNCHANGED <<pos, clean, sess, wantUci, ids, resync, armed>>
+  /\ due' = <<>> /\ UNCHANGED <<pos, clean, sess, wantUci, ids, resync, armed, fromBook>>
 
 TSearchStart ==
   /\ IsEvent("SearchStart")
   /\ LET e == Rec[l] IN
        Diag("C18", clean => (e.fresh /\ e.history_len <= 0 /\ e.table_entries <= 0),
             [kind |-> "first search after ucinewgame started with a used search memory", history_len |-> e.history_len, table_entries |-> e.table_entries, session |-> sess.id])
-  /\ clean' = FALSE /\ UNCHANGED <<pos, due, sess, wantUci, ids, resync, armed>>
+  /\ clean' = FALSE /\ UNCHANGED <<pos, due, sess, wantUci, ids, resync, armed, fromBook>>
 
 THang ==
   /\ IsEvent("Hang")
   /\ Diag(P, FALSE, [kind |-> "no readyok: the engine stopped answering", after |-> Rec[l].after, session |-> sess.id])
-  /\ due' = <<>> /\ UNCHANGED <<pos, clean, sess, wantUci, ids, resync, armed>>
+  /\ due' = <<>> /\ UNCHANGED <<pos, clean, sess, wantUci, ids, resync, armed, fromBook>>
 
 TExit ==
   /\ IsEvent("Exit")
   /\ LET e == Rec[l] IN
        /\ Diag(P, e.status = 0, [kind |-> "process did not exit with status 0", status |-> e.status, stderr |-> e.stderr, session |-> sess.id])
        /\ Diag(P, due = <<>> \/ e.status # 0, [kind |-> "go never answered by a bestmove", pos |-> (IF due # <<>> THEN ToFen(due[1].p) ELSE ""), session |-> sess.id])
-  /\ due' = <<>> /\ UNCHANGED <<pos, clean, sess, wantUci, ids, resync, armed>>
+  /\ due' = <<>> /\ UNCHANGED <<pos, clean, sess, wantUci, ids, resync, armed, fromBook>>
 
-TraceInit == l = 1 /\ pos = StartPos /\ due = <<>> /\ clean = TRUE /\ sess = [wellformed |-> TRUE, id |-> 0, pacing |-> ""] /\ wantUci = FALSE /\ ids = 0 /\ resync = FALSE /\ armed = FALSE
+TraceInit == l = 1 /\ pos = StartPos /\ due = <<>> /\ clean = TRUE /\ sess = [wellformed |-> TRUE, id |-> 0, pacing |-> ""] /\ wantUci = FALSE /\ ids = 0 /\ resync = FALSE /\ armed = FALSE /\ fromBook = FALSE
 TraceNext == TSession \/ TIn \/ TState \/ TOut \/ TWaitEnd \/ TSearchStart \/ THang \/ TExit
 Accepted == IF TLCGet("stats").diameter - 1 = Len(Rec) THEN PrintT(<<"ACCEPTED", Len(Rec)>>)
             ELSE PrintT(<<"STUCK", TLCGet("stats").diameter, Len(Rec)>>)
